@@ -112,6 +112,7 @@ package vm
 //@ props C04 C02 C08
 //@ like template.evalExpr
 //@ requires expr != nil
+//@ callsite reflect.Select * [C02] ctxfirst: ctxFirst(arg0, runInfo.ctx)
 
 //@ func (*runInfoStruct).invokeIncludeExpr
 //@ props C04 C02 C08
